@@ -103,6 +103,9 @@ type Dials struct {
 	Method          float64 // probability of preferring built-in methods
 	Lazy            float64 // probability of preferring lazy list stages
 	NoClosureValues bool
+	// Collide is the probability that a local (let, func, parameter) is named like a static function and that a
+	// map field holding a closure is named like a map method: the nearest binding resp. the field has to win
+	Collide float64
 	// Host functions available as static calls: name -> (ret type, param types)
 	Host map[string]*Ty
 	// HostImpure lists host functions that must not be used in positions a generator wants pure
@@ -143,10 +146,47 @@ func (g *PG) fresh(prefix string) string {
 	return n
 }
 
+// names of pure static functions of the value language (1 or 2 arguments) and of map methods
+var collideStatic = []string{"sqr", "abs", "max", "min", "sqrt", "sign", "floor", "round", "string", "int", "float"}
+var collideMethod = []string{"get", "size", "string", "map", "put", "isAvail", "list", "accept"}
+
+// declares reports whether the tree contains a let, func or closure (i.e. declares a name).
+func declares(n *ref.Node) bool {
+	found := false
+	n.Walk(func(x *ref.Node) {
+		if x.K == ref.KLet || x.K == ref.KFunc || x.K == ref.KClosure {
+			found = true
+		}
+	})
+	return found
+}
+
+// callableName names a local that holds a closure or func.
+func (g *PG) callableName(prefix string) string {
+	if g.D.Collide > 0 && g.chance(3*g.D.Collide) {
+		cur := g.bodies[len(g.bodies)-1]
+		n := collideStatic[g.pick(len(collideStatic))]
+		if !cur[n] {
+			cur[n] = true
+			g.Stats["local_named_like_static_function"]++
+			return n
+		}
+	}
+	return g.fresh(prefix)
+}
+
 // localName returns a name for a let/func/parameter in the current body: usually
 // fresh, sometimes the name of a binding of an enclosing body (shadowing).
 func (g *PG) localName(prefix string) string {
 	cur := g.bodies[len(g.bodies)-1]
+	if g.D.Collide > 0 && g.chance(g.D.Collide) {
+		n := collideStatic[g.pick(len(collideStatic))]
+		if !cur[n] {
+			cur[n] = true
+			g.Stats["local_named_like_static_function"]++
+			return n
+		}
+	}
 	if len(g.bodies) > 1 && len(g.scope) > 0 && g.chance(0.12) {
 		n := g.scope[g.pick(len(g.scope))].name
 		if !cur[n] {
@@ -381,7 +421,7 @@ func (g *PG) wrap(t *Ty, d int, letOK bool) *ref.Node {
 		// let bound to a closure that captures the current scope
 		pt := g.scalarType()
 		ft := TFunc(t, pt)
-		name := g.fresh("c")
+		name := g.callableName("c")
 		val := g.closureLit(ft, d+1)
 		g.Stats["let"]++
 		inner := g.with([]binding{{name, ft}}, func() *ref.Node {
@@ -401,11 +441,27 @@ func (g *PG) wrap(t *Ty, d int, letOK bool) *ref.Node {
 		st := []*Ty{TInt, TStr, TBool}[g.pick(3)]
 		n := 1 + g.pick(3)
 		var cc, cr []*ref.Node
+		// case expressions: literals, or computed ones (evaluated one after the other, only until one matches:
+		// a later case that fails must not matter once an earlier one matched)
+		computed := g.chance(0.4)
 		for i := 0; i < n; i++ {
-			cc = append(cc, g.literal(st, d+1))
+			switch {
+			case computed && i > 0 && g.chance(0.3):
+				g.Stats["switch_failing_later_case"]++
+				cc = append(cc, g.fault(st, d+1, false))
+			case computed:
+				cc = append(cc, g.Gen(st, d+1, false))
+			default:
+				cc = append(cc, g.literal(st, d+1))
+			}
 			cr = append(cr, g.Gen(t, d+1, true))
 		}
-		return ref.Switch(g.Gen(st, d+1, false), cc, cr, g.Gen(t, d+1, true))
+		sel := g.Gen(st, d+1, false)
+		if computed && g.chance(0.5) && !declares(cc[0]) {
+			// make the first case match (a copy would redeclare names if the expression declares any)
+			sel = cc[0].Clone()
+		}
+		return ref.Switch(sel, cc, cr, g.Gen(t, d+1, true))
 	case "try":
 		g.Stats["try"]++
 		var tryE *ref.Node
@@ -442,6 +498,10 @@ func (g *PG) wrap(t *Ty, d int, letOK bool) *ref.Node {
 		pt := g.RandomType(1)
 		ft := TFunc(t, pt)
 		fname := g.fresh("m")
+		if g.D.Collide > 0 && g.chance(3*g.D.Collide) {
+			fname = collideMethod[g.pick(len(collideMethod))]
+			g.Stats["field_named_like_method"]++
+		}
 		g.Stats["mapfield"]++
 		keys := []string{fname}
 		vals := []*ref.Node{g.closureLit(ft, d+1)}
@@ -509,7 +569,7 @@ func (g *PG) useBiased(name string, vt, t *Ty, d int, letOK bool) *ref.Node {
 }
 
 func (g *PG) funcDecl(t *Ty, d int) *ref.Node {
-	name := g.fresh("f")
+	name := g.callableName("f")
 	g.Stats["func"]++
 	if g.chance(0.5) && (t.K == 'i' || t.K == 'l' || t.K == 's') {
 		// guarded recursion on a decreasing int
